@@ -136,13 +136,27 @@ func poolBlocking(r *rand.Rand, limit int, st *poolStats) {
 	if limit > 0 {
 		workers = poolFrames("quartz.(*StdScheduler).startWorkers")
 	}
+	// In pool mode the loop of the first run may hold one fetched job in its hand-off select when Stop arrives; that job
+	// is dropped (the `case <-ctx.Done()` of the select), so one execution may be missing: wait for jobs-1 and for idleness.
 	got := 0
 	deadline := time.After(20 * time.Second)
+	tick := time.NewTicker(5 * time.Millisecond)
+	defer tick.Stop()
+	var idleSince time.Time
 wait:
 	for got < jobs {
 		select {
 		case <-done:
 			got++
+			idleSince = time.Time{}
+		case <-tick.C:
+			if got >= jobs-1 && c.cur.Load() == 0 {
+				if idleSince.IsZero() {
+					idleSince = time.Now()
+				} else if time.Since(idleSince) > 300*time.Millisecond {
+					break wait
+				}
+			}
 		case <-deadline:
 			break wait
 		}
@@ -352,6 +366,99 @@ wait:
 	st.count("unbounded_worst_delay", fmt.Sprintf("<=%dms", (worst.Milliseconds()/100+1)*100))
 }
 
+// ---- scenario D: restart-overlap (KNOWN FINDING, recorded not repaired): the bound holds per run of the scheduler,
+// not per scheduler object. A job that ignores cancellation is still running when Stop(); Start() creates a fresh
+// loop (and pool) that dispatches the other due jobs beside it.
+func poolRestartOverlap(r *rand.Rand, limit int, st *poolStats) {
+	name, bound := "restart-overlap:blocking", 1
+	opts := []quartz.SchedulerOpt{quartz.WithOutdatedThreshold(time.Hour)}
+	if limit > 0 {
+		name, bound = fmt.Sprintf("restart-overlap:pool-%d", limit), limit
+		opts = append(opts, quartz.WithWorkerLimit(limit))
+	} else {
+		opts = append(opts, quartz.WithBlockingExecution())
+	}
+	s, err := quartz.NewStdScheduler(opts...)
+	must(err)
+	jobs := 2*bound + 2
+	var c poolCounter
+	done := make(chan struct{}, jobs)
+	for i := 0; i < jobs; i++ {
+		j := &poolJob{name: fmt.Sprintf("s%d", i), run: func(ctx context.Context) error {
+			c.enter()
+			time.Sleep(400 * time.Millisecond) // ignores ctx on purpose
+			c.leave()
+			done <- struct{}{}
+			return nil
+		}}
+		must(s.ScheduleJob(quartz.NewJobDetail(j, quartz.NewJobKey(j.name)), quartz.NewRunOnceTrigger(time.Duration(5+r.Intn(5))*time.Millisecond)))
+	}
+	ctx1, cancel1 := context.WithCancel(context.Background())
+	s.Start(ctx1)
+	// wait until the first run is saturated
+	full := false
+	for t := time.Now(); time.Since(t) < 5*time.Second; time.Sleep(time.Millisecond) {
+		if c.cur.Load() >= int64(bound) {
+			full = true
+			break
+		}
+	}
+	maxBefore := c.max.Load()
+	s.Stop()
+	ctx2, cancel2 := context.WithCancel(context.Background())
+	s.Start(ctx2) // while the executions of the first run are still in progress
+	// In pool mode the loop of the first run may hold one fetched job in its hand-off select when Stop arrives; that job
+	// is dropped (the `case <-ctx.Done()` of the select), so one execution may be missing: wait for jobs-1 and for idleness.
+	got := 0
+	deadline := time.After(20 * time.Second)
+	tick := time.NewTicker(5 * time.Millisecond)
+	defer tick.Stop()
+	var idleSince time.Time
+wait:
+	for got < jobs {
+		select {
+		case <-done:
+			got++
+			idleSince = time.Time{}
+		case <-tick.C:
+			if got >= jobs-1 && c.cur.Load() == 0 {
+				if idleSince.IsZero() {
+					idleSince = time.Now()
+				} else if time.Since(idleSince) > 300*time.Millisecond {
+					break wait
+				}
+			}
+		case <-deadline:
+			break wait
+		}
+	}
+	max := c.max.Load()
+	if maxBefore > int64(bound) {
+		st.violation("max in-flight exceeded bound: %s, %d executions in progress at once within ONE run (bound %d)", name, maxBefore, bound)
+	} else if max > int64(bound) {
+		st.violation("KNOWN[restart-overlap] %s: %d executions in progress at once (bound %d) after Stop(); Start() while %d execution(s) of a job that ignores cancellation were still running: "+
+			"the bound holds per run of the scheduler, not per scheduler object", name, max, bound, bound)
+	}
+	if !full {
+		st.failures = append(st.failures, name+": the first run never reached its bound within 5 s")
+	}
+	if got < jobs-1 {
+		st.failures = append(st.failures, fmt.Sprintf("%s: only %d of %d jobs ran within 20 s", name, got, jobs))
+	}
+	cancel1()
+	if !poolShutdown(s, cancel2) {
+		st.failures = append(st.failures, name+": Wait did not return within 10 s after Stop")
+	}
+	st.mu.Lock()
+	st.evals += got
+	st.shapes[name] = true
+	st.samples = append(st.samples, map[string]any{"scenario": name, "jobs": jobs, "executed": got, "bound_per_run": bound, "max_in_flight_first_run": maxBefore,
+		"max_in_flight_across_restart": max, "dropped_in_handoff_at_stop": jobs - got})
+	st.mu.Unlock()
+	st.count("scenario", name)
+	st.count("restart_overlap", fmt.Sprintf("%s:overlap-observed=%v", name, max > int64(bound)))
+}
+
 func poolRun(args []string) int {
 	fs := flag.NewFlagSet("pool", flag.ExitOnError)
 	seed := fs.Int64("seed", 1, "")
@@ -370,6 +477,10 @@ func poolRun(args []string) int {
 			poolLimited(r, n, st)
 		}
 		poolUnbounded(r, st)
+		if k == 0 {
+			poolRestartOverlap(r, 0, st)
+			poolRestartOverlap(r, 2, st)
+		}
 	}
 	leftover := 0
 	for i := 0; i < 300; i++ { // every scheduler was stopped and waited for: nothing of package quartz may be left
@@ -386,7 +497,7 @@ func poolRun(args []string) int {
 		"distribution": st.dist, "violations": viol, "samples": st.samples, "harness_failures": st.failures,
 		"leftover_quartz_goroutines": leftover, "wall_ms": time.Since(t0).Milliseconds()})
 	fmt.Printf("pool: %d executions observed in %d scenario runs (%d distinct), %d property violations, %d harness failures, %d ms\n",
-		st.evals, *rounds*7, len(st.shapes), len(viol), len(st.failures), time.Since(t0).Milliseconds())
+		st.evals, *rounds*7+2, len(st.shapes), len(viol), len(st.failures), time.Since(t0).Milliseconds())
 	if len(st.failures) > 0 {
 		fmt.Println("pool: harness failures:", st.failures)
 		return 4
